@@ -36,6 +36,13 @@ def _NONNULL(cfg):
 _BADCALLS = ("MCGrafts_userfn.cfg", None, {"fnmd": True, "grafts": ("userfn_", "builtin_fn_"), "cap": {"quick": 300, "thorough": 3000}})
 
 
+def _INTDIV(t):
+    "every small integer-valued expression divided by an integer constant / dividing one (the C++ type it really has decides)"
+    sfx = "" if t == "quick" else "_t"
+    return [("MCQueryGen_intdiv%s.cfg" % sfx, None, {"backend": "atlas", "cap": {"quick": 600, "thorough": 3000}}),
+            ("MCQueryGen_intrdiv%s.cfg" % sfx, None, {"backend": "cms_aod", "cap": {"quick": 300, "thorough": 3000}})]
+
+
 def _first_math(t):
     if t["k"] == "Math":
         return t["a"]
@@ -152,11 +159,11 @@ SPECS = {
         "C13",
         clauses=["Accepts", "RowsMatch", "SchemaMatches", "SpuriousFault", "Compiles", "BookingFault"],
         profiles={"quick": [("MCQueryGen_arithtable.cfg", None), ("MCQueryGen_arith.cfg", None),
-                            ("MCQueryGen_arithif.cfg", None, {"cap": {"quick": 330, "thorough": 2000}})],
+                            ("MCQueryGen_arithif.cfg", None, {"cap": {"quick": 330, "thorough": 2000}})] + _INTDIV("quick"),
                   "thorough": [("MCQueryGen_arithtable.cfg", None), ("MCQueryGen_arith.cfg", None),
-                               ("MCQueryGen_arithif_t.cfg", None, {"cap": {"quick": 330, "thorough": 2000}})]},
+                               ("MCQueryGen_arithif_t.cfg", None, {"cap": {"quick": 330, "thorough": 2000}})] + _INTDIV("thorough")},
         events={"quick": 8, "thorough": 16},
-        cap={"quick": 1330, "thorough": 6000},
+        cap={"quick": 2100, "thorough": 9000},
     ),
 }
 
